@@ -1,4 +1,5 @@
 #!/usr/bin/env python3
+# run with python3-vt (tooling venv) to get schema validation
 """Regenerates /verif/MANIFEST.json from the table below and validates it."""
 import json, subprocess, sys, os
 ROOT = "/verif"
@@ -55,6 +56,24 @@ CHECKS.update({
          "Heavily nested programs (blocks, declarations, function expressions in arguments/literals/conditions, depth to 20) and 10^5 (quick) malformed inputs for the final-state clause.",
          "Inside a function body both FunctionContext and BlockContext are accepted as innermost context.", "5/C16"),
 })
+# additions of session 3 (after the seeded rounds): appended to the level text
+EXTRA = {
+ "C01": " Lexemes are random over the whole lexical grammar (escape families, line continuations, keyword-like and long identifiers, all numeric shapes, CR/trailing blanks in backtick strings); layouts include ';' on the next line.",
+ "C02": " Lexemes are random over the whole lexical grammar, strings compared by meaning (independent decoder, acorn cross-check); layouts include ';' on the next line; trees carry explicit redundant parentheses.",
+ "C03": " Every 4th random tree is additionally edited in place after it was printed (operator of a binary node replaced on the ast nodes) and must round-trip again.",
+ "C04": " A third of the stacks is installed in two stages around a first Build (later parsers must see the later interceptors); by a per-step coin statement interceptors parse the statement themselves through the public Parse*Statement API and re-entrant expression interceptors use the specific public prefix functions.",
+ "C05": " Histories contain builds in mid-history, names that are keywords / operator spellings, built-in tokens in roles they lack (accepted once, refused on repeat), and a minimal use of every accepted operator afterwards.",
+ "C06": " Programs use random lexemes (escapes, line continuations, CR in backtick strings), ';' on the next line and tree-level redundant parentheses.",
+ "C07": " Further strata: random code-point escapes in concatenations, literals in other positions (object key, computed key, array element, argument, operand), adjacent string literals under '+' whose texts could merge into a longer escape, CR / CRLF / U+2028 inside backtick strings.",
+ "C08": " Generated positions follow the Source Map line convention (LF, CRLF, lone CR); string lexemes are linked by meaning; programs use random lexemes incl. line continuations and CR in backtick strings.",
+ "C09": " Advanced strings may end in a lone CR or be exactly \"\\r\"; only an LF directly continuing such a CR in the next advanced string is not generated.",
+ "C10": " Inputs include BOM / hashbang / NUL starts, Unicode spaces and line terminators, form feed / vertical tab, numeric separators.",
+ "C11": " On every second case ParseProgram is called a second time on the same parser and the contract is checked again.",
+ "C13": " Half of the tolerant cases are repeated with a plugin statement keyword (`unless`, parsed through the public API into the `while` node) as the fused statement.",
+ "C14": " Job results include the ids and display forms of the registered token types; half of the builders in the sequential histories are configured in stages with parsers built in between.",
+ "C15": " Programs carry tree-level redundant parentheses (statements beginning with '((').",
+ "C16": " Half of the parses run a second parser of the same builder to completion inside an interceptor; half use interceptors that parse statements through the public API; a deep-nesting stratum goes to 128 (thorough 500) nested constructs.",
+}
 REASONS_PENDING = "check under construction in this round (see DESIGN.md); not claimed yet"
 def main():
     props = [json.loads(l)["id"] for l in open(f"{ROOT}/properties.jsonl")]
@@ -78,7 +97,7 @@ def main():
             "evidence_file": f"/verif/evidence/{pid}.json",
             "replay_cmd_template": ".build/xjsverif replay {path}",
             "engine": "xjsverif",
-            "level_claimed": {"category": cat, "text": text, "design_ref": ref},
+            "level_claimed": {"category": cat, "text": text + EXTRA.get(pid, ""), "design_ref": ref},
             "level_note": note,
             "technique": tech,
         })
